@@ -2,6 +2,7 @@
 import ast
 
 from ..core import astutil as A
+from ..core import match as M
 from ..core import boolx
 from ..core.model import dotted
 
@@ -19,34 +20,72 @@ def run(ctx):
     dv = P.func(MOD, "_dist_validate_args")
     t = A.unparse(dv.node)
     # ---- R1 removal algebra -------------------------------------------------------------------------
-    sv = [v for t_, v, _ in A.assignments(dv.node, "saving_files")]
-    ctx.require(len(sv) == 1, "_dist_validate_args: saving_files not found")
+    # roles: the protected sets are the locals initialised `set()` that are filled from `<pkg>.distfiles`
+    def from_distfiles(e):
+        if any(isinstance(n, ast.Attribute) and n.attr == "distfiles" for n in A.walk(e)):
+            return True
+        if isinstance(e, ast.Name):
+            return any(from_distfiles(v) for t_, v, _ in A.assignments(dv.node, e.id) if not (isinstance(v, ast.Name) and v.id == e.id))
+        return False
+
+    def is_distfiles_fill(c):
+        return A.call_attr(c) == "update" and isinstance(c.func.value, ast.Name) and c.args and from_distfiles(c.args[0])
+    rp = M.one(dv.node, "$repo = namespace.repo")
+    ctx.require(rp is not None, "_dist_validate_args: repository variable not found")
+    repov = rp["repo"]
+    init_sets = {t_.id for t_, v, _ in A.assignments(dv.node) if isinstance(t_, ast.Name) and A.unparse(v) == "set()"}
+    sub = M.one(dv.node, "$tf.difference_update($sv)")
+    ctx.require(sub is not None, "_dist_validate_args: subtraction of the protected files not found")
+    tfv, svv = sub["tf"], sub["sv"]
+    sv = [v for t_, v, _ in A.assignments(dv.node, svv)]
+    ctx.require(len(sv) == 1, "_dist_validate_args: union of the protected sets not found")
     parts = set(A.names_in(sv[0]))
-    sets = {t_.id for t_, v, _ in A.assignments(dv.node) if isinstance(t_, ast.Name) and t_.id.endswith("_dist") and A.unparse(v) == "set()"}
-    ctx.check("R1", dv, parts == sets == {"installed_dist", "exists_dist", "excludes_dist", "restricted_dist"}, f"saving-is-union-of-all:{sorted(sets - parts)}", "every protected set takes part in saving_files",
-              f"saving_files is built from {sorted(parts)} but the protected sets are {sorted(sets)}: {sorted(sets - parts)} no longer protect anything", node=sv[0])
+    fills = [c for c in A.calls(dv.node) if is_distfiles_fill(c) and c.func.value.id in init_sets and c.func.value.id != tfv]
+    sets = {c.func.value.id for c in fills}
+
+    def role_of(name):
+        """installed / restricted / excludes / exists — decided by where the set is filled"""
+        for c in fills:
+            if c.func.value.id != name:
+                continue
+            loops = [A.unparse(p.iter) for p in A.parents(c) if isinstance(p, ast.For)]
+            gates_ = [A.unparse(p.test) for p in A.parents(c) if isinstance(p, ast.If)]
+            if any("all_installed_repos" in l for l in loops):
+                return "installed"
+            if any("'fetch' in" in g and ".restrict" in g for g in gates_):
+                return "restricted"
+            if any("exclude_restrict" in l for l in loops):
+                return "excludes"
+        return "exists"
+    roles = {}
+    for n_ in sorted(sets):
+        roles.setdefault(role_of(n_), []).append(n_)
+    ctx.check("R1", dv, sorted(roles) == ["excludes", "exists", "installed", "restricted"] and all(len(v) == 1 for v in roles.values()) and parts == sets, f"saving-is-union-of-all:{sorted(sets - parts)}", "every protected set (installed, existing, excluded, fetch-restricted) takes part in the union that is subtracted",
+              f"the subtracted union is built from {sorted(parts)} but the protected sets are {sorted(sets)} (roles {sorted(roles)}): {sorted(sets - parts)} no longer protect anything", node=sv[0])
+    R = {k: v[0] for k, v in roles.items() if v}
     ops = {type(n.op).__name__ for n in A.walk(sv[0]) if isinstance(n, ast.BinOp)}
     ctx.check("R1", dv, ops == {"BitOr"}, f"saving-is-union:{sorted(ops)}", "the protected sets are united")
-    du = [c for c in A.calls(dv.node) if A.unparse(c.func) == "target_files.difference_update"]
-    fills = [c for c in A.calls(dv.node) if A.call_attr(c) in ("update", "add") and A.unparse(c.func.value).endswith("_dist")]
-    ctx.check("R1", dv, len(du) == 1 and A.unparse(du[0].args[0]) == "saving_files" and all(c.lineno < du[0].lineno for c in fills), "protected-subtracted-last", "the protected files are subtracted after every protected set is complete")
-    tg = [v for t_, v, _ in A.assignments(dv.node, "targets")]
-    ctx.check("R1", dv, len(tg) == 1 and "all_dist_files.intersection(target_files)" in A.unparse(tg[0]) and tg[0].lineno > du[0].lineno, "only-listed-targets", "only files listed in the distdir AND targeted (after the subtraction) are candidates")
+    du = [sub.node]
+    ctx.check("R1", dv, all(c.lineno < du[0].lineno for c in fills), "protected-subtracted-last", "the protected files are subtracted after every protected set is complete")
+    lst = M.one(dv.node, "$dd = namespace.domain.distdir\n...\n$all = {os.path.basename($f) for $f in listdir_files($dd)}")
+    cand = M.one(dv.node, f"$tg = (pjoin($dd, $g) for $g in sorted($all.intersection({tfv})))", lst.env if lst else None) if lst else None
+    ctx.check("R1", dv, cand is not None and cand.node.lineno > du[0].lineno, "only-listed-targets", "only files listed in the distdir AND targeted (after the subtraction) are candidates")
+    rmm = M.one(dv.node, "$rf = partial(os.remove)\nnamespace.remove = (($rf, $h) for $h in filter(namespace.file_filters.run, $tg))", {"tg": cand["tg"]} if cand else None)
     rm = [(t_, v) for t_, v, _ in A.assignments(dv.node) if A.unparse(t_) == "namespace.remove"]
-    ctx.check("R1", dv, len(rm) == 1 and "for f in filter(namespace.file_filters.run, targets)" in A.unparse(rm[0][1]) and "removal_func = partial(os.remove)" in t, "filters-applied", "the removal list is the candidates that pass the file filters, nothing else")
-    ctx.check("R1", dv, "all_dist_files = {os.path.basename(f) for f in listdir_files(distdir)}" in t and "target_files = all_dist_files" in t, "untargeted-means-all", "without targets every listed distfile is a candidate")
+    ctx.check("R1", dv, len(rm) == 1 and rmm is not None, "filters-applied", "the removal list is the candidates that pass the file filters, nothing else")
+    ctx.check("R1", dv, lst is not None and M.has(dv.node, f"{tfv} = $all", lst.env), "untargeted-means-all", "without targets every listed distfile is a candidate")
     ctx.floor("R1", 6)
 
     # ---- R2 option implication -----------------------------------------------------------------------------
-    def fill_sites(name):
-        return [c for c in fills if A.unparse(c.func.value) == name]
+    def fill_sites(role):
+        return [c for c in fills if c.func.value.id == R.get(role)]
 
     def gate_of(call):
         return [p.test for p in A.parents(call) if isinstance(p, ast.If)]
 
-    inst = fill_sites("installed_dist")
-    ctx.check("R2", dv, len(inst) == 1 and [A.unparse(g) for g in gate_of(inst[0])] == ["namespace.exclude_installed"] and "for pkg in namespace.domain.all_installed_repos" in t, "installed-option", "--installed fills the installed set from all installed repos, under that option alone")
-    scan = [n for n in A.body_walk(dv.node) if isinstance(n, ast.For) and A.unparse(n.iter) == "repo"]
+    inst = fill_sites("installed")
+    ctx.check("R2", dv, len(inst) == 1 and [A.unparse(g) for g in gate_of(inst[0])] == ["namespace.exclude_installed"] and any(isinstance(p, ast.For) and A.unparse(p.iter) == "namespace.domain.all_installed_repos" for p in A.parents(inst[0])), "installed-option", "--installed fills the installed set from all installed repos, under that option alone")
+    scan = [n for n in A.body_walk(dv.node) if isinstance(n, ast.For) and A.unparse(n.iter) == repov]
     ctx.require(len(scan) == 1, "_dist_validate_args: full tree scan not found")
     gates = [p.test for p in A.parents(scan[0]) if isinstance(p, ast.If)]
     ctx.require(len(gates) == 1, "_dist_validate_args: gate of the full tree scan not found")
@@ -57,12 +96,13 @@ def run(ctx):
         forced = boolx.forced_outcome(gate, {opt: True}) if key else None
         ctx.check("R2", dv, forced is True, f"option-forces-scan:{opt.split('.')[-1]}", f"`{opt.split('.')[-1]}` alone forces the full tree scan, whatever the other options (targets included)",
                   f"the full tree scan runs under `{A.unparse(gate)}`: with `{opt.split('.')[-1]}` set it can still be skipped (e.g. when targets/exclusions are given), and the targeted branch only records the targeted packages' files — {'fetch-restricted distfiles are' if 'fetch' in opt else 'distfiles of other existing ebuilds picked up by the name based selection are'} no longer protected", node=scan[0])
-    ex = [c for c in fill_sites("exists_dist") if A.contains_node(scan[0], c)]
-    rs = [c for c in fill_sites("restricted_dist")]
+    ex = [c for c in fill_sites("exists") if A.contains_node(scan[0], c)]
+    rs = [c for c in fill_sites("restricted")]
+    pkgv = A.unparse(scan[0].target)
     ctx.check("R2", dv, len(ex) == 1 and not [g for g in gate_of(ex[0]) if g is not gate], "scan-records-existing", "the scan records every tree package's distfiles as existing")
-    ctx.check("R2", dv, len(rs) == 1 and A.contains_node(scan[0], rs[0]) and [A.unparse(g) for g in gate_of(rs[0]) if g is not gate] == ["'fetch' in pkg.restrict"], "scan-records-fetch-restricted", "and those of fetch-restricted packages as restricted")
-    exc = fill_sites("excludes_dist")
-    ctx.check("R2", dv, len(exc) == 1 and [A.unparse(g) for g in gate_of(exc[0])] == ["namespace.exclude_restrict"] and "repo.itermatch(namespace.exclude_restrict" in t, "exclusion-patterns", "exclusion patterns protect the files of every matching package")
+    ctx.check("R2", dv, len(rs) == 1 and A.contains_node(scan[0], rs[0]) and [A.unparse(g) for g in gate_of(rs[0]) if g is not gate] == [f"'fetch' in {pkgv}.restrict"], "scan-records-fetch-restricted", "and those of fetch-restricted packages as restricted")
+    exc = fill_sites("excludes")
+    ctx.check("R2", dv, len(exc) == 1 and [A.unparse(g) for g in gate_of(exc[0])] == ["namespace.exclude_restrict"] and any(isinstance(p, ast.For) and M.pat(f"{repov}.itermatch(namespace.exclude_restrict, ...)").matches(p.iter) for p in A.parents(exc[0])), "exclusion-patterns", "exclusion patterns protect the files of every matching package")
     ctx.floor("R2", 6)
 
     # ---- R3 raw distfiles ---------------------------------------------------------------------------------------
@@ -75,7 +115,8 @@ def run(ctx):
                 continue
             n += 1
             recv = A.unparse(node.value)
-            ctx.check("R3", dv, recv == "getattr(pkg, '_raw_pkg', pkg)", f"raw-distfiles@{src[:30]}:{recv[:20]}", f"tree package distfiles (loop over `{src[:40]}`) are read from the raw, USE-unconditional package",
+            lv = A.unparse(loop.target) if loop is not None else "pkg"
+            ctx.check("R3", dv, recv == f"getattr({lv}, '_raw_pkg', {lv})", f"raw-distfiles@{src[:30]}:{recv[:20]}", f"tree package distfiles (loop over `{src[:40]}`) are read from the raw, USE-unconditional package",
                       f"in the loop over `{src[:50]}` distfiles are read from `{recv}`: a USE-configured wrapper evaluates SRC_URI against the current USE flags, so distfiles in disabled USE-conditional branches are not recorded and get deleted", node=node)
     ctx.check("R3", dv, n >= 4, f"tree-distfile-reads:{n}", f"{n} tree-package distfile reads inspected")
     ctx.floor("R3", 5)
@@ -96,18 +137,20 @@ def run(ctx):
         ctx.check("R4", fo, not captured, f"no-loop-capture:{sorted(captured)}", f"`{A.unparse(l)[:50]}` captures no loop variable",
                   f"`{A.unparse(l)[:70]}` closes over the loop variable(s) {sorted(captured)}: all filters created in the loop see the LAST iteration's values, so one of --modified/--size silently tests the other's attribute and limit", node=l)
     tf = A.unparse(fo.node)
-    ctx.check("R4", fo, "os.stat(x).st_mtime < namespace.modified" in tf or "st_mtime" in tf, "age-filter", "the age filter tests st_mtime against the --modified limit")
-    ctx.check("R4", fo, "os.stat(x).st_size < namespace.size" in tf or "st_size" in tf, "size-filter", "the size filter tests st_size against the --size limit")
+    ctx.check("R4", fo, M.has(fo.node, "if namespace.modified is not None:\n    namespace.file_filters.append(lambda $x: os.stat($x).st_mtime < namespace.modified)") or "st_mtime" in tf, "age-filter", "the age filter tests st_mtime against the --modified limit")
+    ctx.check("R4", fo, M.has(fo.node, "if namespace.size is not None:\n    namespace.file_filters.append(lambda $x: os.stat($x).st_size < namespace.size)") or "st_size" in tf, "size-filter", "the size filter tests st_size against the --size limit")
     fr = P.func(MOD, "Filters.run")
-    ctx.check("R4", fr, "all((f(x) for f in self._filters))" in A.unparse(fr.node), "all-filters-must-pass", "a file is removed only if ALL filters pass")
+    ctx.check("R4", fr, M.has(fr.node, "return lambda $x: all(($f($x) for $f in self._filters))"), "all-filters-must-pass", "a file is removed only if ALL filters pass")
     ctx.floor("R4", 5)
 
     # ---- R5 runner ---------------------------------------------------------------------------------------------------
     rr = P.func(MOD, "_remove")
-    calls = [c for c in A.calls(rr.node) if isinstance(c.func, ast.Name) and c.func.id == "func"]
+    lpm = M.one(rr.node, "for ($fn, $tgt) in options.remove:\n    ...")
+    fnv = lpm["fn"] if lpm else "func"
+    calls = [c for c in A.calls(rr.node) if isinstance(c.func, ast.Name) and c.func.id == fnv]
     ok = len(calls) == 1 and any(A.unparse(p.test) == "not options.pretend" for p in A.parents(calls[0]) if isinstance(p, ast.If))
     ctx.check("R5", rr, ok, "pretend-removes-nothing", "the removal function is called only when not pretending")
-    ctx.check("R5", rr, "for func, target in options.remove" in A.unparse(rr.node).replace("(func, target)", "func, target"), "only-listed-removed", "only the prepared (function, path) pairs are acted on")
+    ctx.check("R5", rr, M.has(rr.node, "for ($fn, $tgt) in options.remove:\n    ...\n    try:\n        if not options.pretend:\n            $fn($tgt)\n    except OSError as $e:\n        ..."), "only-listed-removed", "only the prepared (function, path) pairs are acted on")
     ctx.floor("R5", 2)
 
 
